@@ -21,13 +21,13 @@ BUDGET_S = {'quick': 170, 'thorough': 3600}
 SHAPE_WALL_S = {'quick': 120, 'thorough': 900}
 STUBS = list(_BASE_STUBS) + [
     '`set` as built in ' + ', '.join(m.replace('bespokeasm.assembler.', '') for m in shims.NONDET_SET_MODULES)
-    + ' -> subclass whose iteration order is chosen by the solver (all permutations of sets of <= %d elements)' % shims.NONDET_LIMIT]
+    + ' -> subclass whose iteration order is chosen by the solver: one order selector per path (%d values, like one hash seed per process) from which the order of every set is derived - all permutations up to %d elements, rotations and reversals up to %d' % (shims.NONDET_SEEDS, shims.NONDET_FULL, shims.NONDET_LIMIT)]
 FAMILY = ('PIPE shapes of the C01/C02/C06/C16/C17 families (instructions over 4 registers, zones, labels and scopes, programs '
           'split over include files found through 2-3 include directories, listing / hex / intel_hex / minhex output) run '
           'with every set iteration order; the obligations are those of the families (output == reference for all values), '
           'so the output is the same function of the inputs on every order; real command-line runs of every witness under '
           'hash seeds 0,1,2,3,7,42,1234, absolute paths from another working directory, reversed -I order')
-BOUNDS = {'sets': 'all permutations up to %d elements, larger sets inconclusive' % shims.NONDET_LIMIT,
+BOUNDS = {'sets': '%d order selectors per path; all permutations up to %d elements, rotations and reversed rotations up to %d, larger sets inconclusive; orders of different sets on one path are correlated' % (shims.NONDET_SEEDS, shims.NONDET_FULL, shims.NONDET_LIMIT),
           'values': 'as in the source families', 'hash seeds of the real runs': '7 values (a sample: the symbolic side covers the orders)'}
 ASSUMPTIONS = ['run-to-run variation enters only through set iteration order, the working directory and the include directory '
                'order (dict order is insertion order in CPython >= 3.7)',
@@ -132,6 +132,17 @@ def shapes(tier, seed):
     src += c06s[:8 if quick else 150]
     ins = isa_templates.instr_shapes('quick', seed, ['C01'])
     src += [s for s in ins if s.sid.split(':')[0] in ('t4', 't5', 't7', 't8')][:10 if quick else 60]
+    # preprocessor symbols whose names contain one another, several on one line: the substitution must not depend on
+    # any iteration order (written so that the in-order substitution of the unchanged tree gives the stated values)
+    from sx.pipe import Sym
+    V, C = (lambda n: ('v', n)), (lambda n: ('c', n))      # noqa
+    files = {'main.asm': '#define LEN 2\n#define LEN2 7\n#define XLEN2 9\n.org o0\n.byte LEN2 - LEN, LEN2, LEN\n'
+                         '.byte XLEN2 - LEN2, LEN\nk: .byte LSB(v2), LEN2 + LEN\n'}
+    prog = [('org', V('o0'), None), ('data', '.byte', [C(5), C(7), C(2)]), ('data', '.byte', [C(2), C(2)]), ('label', 'k'),
+            ('data', '.byte', [('lsb', V('v2')), C(9)])]
+    src.append(c17.SplitShape('preprocessor-symbols-containing-one-another', prog={'main.asm': prog}, files=files,
+                              cfgargs=dict(origin=Sym('o0', 0, 0x1000), consts={'v2': c02.SYMS['v2'], 'o0': (0, 0x1000)}),
+                              props=['C17'], binary=True, start=Sym('o0', 0, 0x1000), width=48, expect=['ok']))
     out = []
     for s in src:
         d = det(s)
